@@ -52,6 +52,20 @@ Theorem C05_offset_shifts_every_index :
 Proof. exact offset_spec. Qed.
 Print Assumptions C05_offset_shifts_every_index.
 
+(* c(k) and c(k)?:d in the expression language are these functions of the operands' values; the fallback is
+   evaluated only when no value is paired with the key (it may fail or loop otherwise) *)
+Theorem C05_call_forms_are_these_functions :
+  forall fuel rho f a d c k,
+    eval fuel rho f = Ok (D (VSet c)) -> eval fuel rho a = Ok (D k) ->
+    eval (S fuel) rho (ECall f a) = match call_data c k with CROne v => Ok (D v) | CRNotKeyed => Unspec | _ => Err end /\
+    eval (S fuel) rho (ESafeCall f a d) =
+      match call_data c k with CROne v => Ok (D v) | CRNone => eval fuel rho d | CRNotKeyed => Unspec | CRMany => Err end.
+Proof.
+  intros fuel rho f a d c k Hf Ha. split;
+    [apply call_operator_is_call_data | apply safe_call_operator_is_call_data]; assumption.
+Qed.
+Print Assumptions C05_call_forms_are_these_functions.
+
 (* >> and >>> keep every key (offsets and holes included), for every operand, transformer, scope
    and fuel: position for position the result is built from a member with the same key and the
    same attribute name, and from nothing else *)
